@@ -409,6 +409,7 @@ class Session:
         self.dm = bool(dm)
         self.tmpdir = None
         self.log = []            # [step, status] for every step
+        self.ttypes = []         # type of the target loop of every step
         self.dead = False
         try:
             index = src.get("invoke", 0)
@@ -535,6 +536,7 @@ class Session:
             raise HarnessError("step applied to a dead session")
         kind = step["t"]
         status = None
+        ttype = None        # loop type of the target loop before the step
         touched_incs = []
         try:
             if kind in LOOP_STEPS or kind == "fuse":
@@ -548,6 +550,7 @@ class Session:
                     status = "refused:notarget"
                 else:
                     loop = loops[step["loop"] % len(loops)]
+                    ttype = getattr(loop, "loop_type", None)
                     touched_incs = self.loop_needs_colour(loop)
                     if kind == "colour":
                         tr.Dynamo0p3ColourTrans().apply(loop)
@@ -629,6 +632,7 @@ class Session:
             status = "crash:" + type(err).__name__
             self.dead = True
         self.log.append([step, status])
+        self.ttypes.append(ttype)
         return status, touched_incs
 
     # ---- oracle on the tree -------------------------------------------
